@@ -405,6 +405,12 @@ def run(tier):
         scalar_driver(chk, F, fns, name, ty, argn, seeds, outs)
     vec3(chk, F, fns)
     gradient_like(chk, F, fns)
+    # what a driver returns is the closure's result: the operations a closure is built from (the optional-derivative container and
+    # + - * / in every operand form, also with absent parts) are the truncated-algebra operations (rule sets of C02/C07)
+    from . import container, c08
+    container.check_L1(chk, F)
+    for ty in TYPES:
+        c08.check_type(chk, F, ty, thorough=False, dual_only=True)
     if tier == "thorough":
         orientation_witness(chk)
     chk.floor("drivers analysed", chk.analysed.get("drivers analysed", 0), 20)
